@@ -115,15 +115,21 @@ Theorem c20_stv_no_ties : forall p : profile,
      forall cfg s, stv_init cfg p = inr EType /\ run_stv cfg p s = inr EType).
 Proof. exact (c20_stv_no_ties_proof cand ceqb). Qed.
 
-(* ... then ValueError iff m <= 0, m > number of candidates, or the quota name is unknown;
-   m = number of candidates is accepted *)
+(* ... then (since the fix "random transfer refuses non-integer weights up front") TypeError iff
+   the transfer is the random one and some ballot has a non-integral weight; then ValueError iff
+   m <= 0, m > number of candidates, or the quota name is unknown; m = number of candidates is
+   accepted; every error of the constructor is the error of the run *)
 Theorem c20_m_range : forall cfg (p : profile),
   stv_validate p = inl tt ->
+  (stv_init cfg p = inr EType <->
+     s_transfer cfg = TRandom /\ exists b, In b (ballots p) /\ is_integral (wt b) = false) /\
   (stv_init cfg p = inr EValue <->
+     ~ (s_transfer cfg = TRandom /\ exists b, In b (ballots p) /\ is_integral (wt b) = false) /\
      (s_m cfg <= 0 \/ Z.of_nat (length (cands p)) < s_m cfg \/ s_quota cfg = QBad)%Z) /\
-  (forall e, stv_init cfg p = inr e -> e = EValue) /\
-  (stv_init cfg p = inr EValue -> forall s, run_stv cfg p s = inr EValue) /\
-  ((1 <= s_m cfg <= Z.of_nat (length (cands p)))%Z -> s_quota cfg <> QBad ->
+  (forall e, stv_init cfg p = inr e -> e = EType \/ e = EValue) /\
+  (forall e, stv_init cfg p = inr e -> forall s, run_stv cfg p s = inr e) /\
+  (~ (s_transfer cfg = TRandom /\ exists b, In b (ballots p) /\ is_integral (wt b) = false) ->
+   (1 <= s_m cfg <= Z.of_nat (length (cands p)))%Z -> s_quota cfg <> QBad ->
      exists t, stv_init cfg p = inl t).
 Proof. exact (c20_m_range_proof cand ceqb). Qed.
 
@@ -290,6 +296,11 @@ Example ex_stv :
   run_stv positive Pos.eqb (cfg 0 QDroop) ex_good st0 = inr EValue /\
   run_stv positive Pos.eqb (cfg 4 QDroop) ex_good st0 = inr EValue /\
   run_stv positive Pos.eqb (cfg 1 QBad) ex_good st0 = inr EValue /\
+  (* random transfer and a weight 3/2: TypeError, even with a bad seat count and quota name *)
+  STV.stv_validate positive ex_frac = inl tt /\
+  run_stv positive Pos.eqb (mkStv 0 QBad true TRandom None) ex_frac st0 = inr EType /\
+  run_stv positive Pos.eqb (mkStv 1 QDroop true TRandom None) ex_frac st0 = inr EType /\
+  run_stv positive Pos.eqb (cfg 0 QBad) ex_frac st0 = inr EValue /\
   (exists t, STV.stv_init positive (cfg 3 QDroop) ex_good = inl t) /\
   (exists sts, run_stv positive Pos.eqb (cfg 1 QDroop) ex_good st0 = inl (sts, st0)).
 Proof.
